@@ -220,9 +220,39 @@ def apply_generate_plan(rng, p, cmd, args, plan, dirarg):
         cligen.add_generate_line(rng, p, "shoot " + rng.choice(SUBS) + " -type=Nothing")
 
 
+def pair_cases(rng):
+    """deterministic part of every run: -file mode of every subcommand on packages whose file names are related
+    (one a proper suffix / prefix of the other, both sort orders), plus -file values that differ from a file name
+    only in case or by a leading ./"""
+    cases = []
+    for cmd in SUBS:
+        xf = ["-path=../dest"] if cmd == "map" else []
+        for short, long_ in cligen.NAME_PAIRS:
+            skel = cligen.gen_pair_pkg(rng, cmd, short, long_)
+            for f, sep in [(short, rng.choice([[], ["-sep"]])), (long_, []), (short, ["-type=*"])]:
+                cases.append(Case(copy.deepcopy(skel), cmd, xf + ["-file=" + f] + sep, None, "pair"))
+        short, long_ = cligen.NAME_PAIRS[SUBS.index(cmd) % len(cligen.NAME_PAIRS)]
+        skel = cligen.gen_pair_pkg(rng, cmd, short, long_)
+        # a -file value that differs in case names no file (on this file system): "file not exists"
+        cases.append(Case(copy.deepcopy(skel), cmd, xf + ["-file=" + short.capitalize()], None, "pair"))
+        # ./f.go exists for os.Stat but is never equal to the base name of a loaded file: nothing is generated
+        p = copy.deepcopy(skel)
+        p.others = [("./" + short, None)]
+        cases.append(Case(p, cmd, xf + ["-file=./" + short], None, "pair"))
+        # a type group mixing ineligible and eligible specs, in a file with a dot in its base name and a renamed shoot
+        # import; the //go:generate line in a declaration-free doc.go; a local type of an earlier file shadowing a named type
+        skel, good = cligen.gen_group_pkg(rng, cmd)
+        cases.append(Case(copy.deepcopy(skel), cmd, xf + ["-file=model.v2.go"], None, "group"))
+        cases.append(Case(copy.deepcopy(skel), cmd, xf + ["-type=" + ",".join(good)], None, "group"))
+        p = copy.deepcopy(skel)
+        p.files[1].decls.append(("comment", "//go:generate shoot " + " ".join([cmd] + xf + ["-type=*"])))
+        cases.append(Case(p, cmd, xf + ["-type=*"], None, "group"))
+    return cases
+
+
 def gen_cases(run, nskel):
     rng = run.rng
-    cases = []
+    cases = pair_cases(rng)
     for i in range(nskel):
         with_rest = (i % 5 == 0)
         skel = cligen.gen_pkg(rng, with_rest=with_rest, want_collision=(rng.random() < 0.08))
@@ -659,7 +689,7 @@ def main(run):
     measured = run.replay_findings(handlers(run, shoot, gosig))
     run.log("findings:", measured)
 
-    nskel = 400 if run.thorough() else 34
+    nskel = 400 if run.thorough() else 30
     cases = gen_cases(run, nskel)
     # corpus of past failures first
     corpus = sorted((lib.VERIF / "corpus" / "C16").glob("*.json")) if (lib.VERIF / "corpus" / "C16").exists() else []
